@@ -26,7 +26,7 @@ D = ['bitstring.bits:Bits._setfile', 'bitstring.bits:Bits._setauto', 'bitstring.
      'bitstring.bitstore:BitStore.invert_msb0', 'bitstring.bitstore:BitStore.getindex_msb0', 'bitstring.bitstore:BitStore.getslice_lsb0', 'bitstring.bitstore:BitStore.getindex_lsb0',
      'bitstring.bitstore:BitStore.find', 'bitstring.bitstore:BitStore.rfind', 'bitstring.bitstore:BitStore.findall_msb0', 'bitstring.bitstore:BitStore.any_set', 'bitstring.bitstore:BitStore.all_set']
 
-ROUTES = ['file-len', 'file-len-unaligned', 'file-whole', 'file-exact-len', 'file-offset', 'file-offset-len', 'handle-len', 'bytes-window', 'bitarray', 'bitarray-window', 'slice-of-larger', 'copy-of', 'bools']
+ROUTES = ['bitarray-little', 'bitarray-little-window', 'file-len', 'file-len-unaligned', 'file-whole', 'file-exact-len', 'file-offset', 'file-offset-len', 'handle-len', 'bytes-window', 'bitarray', 'bitarray-window', 'slice-of-larger', 'copy-of', 'bools']
 
 
 def build(K, cls, route, n):
@@ -71,6 +71,13 @@ def build(K, cls, route, n):
     if route == 'bitarray':
         x = K.bits('x', n)
         return cls(x.copy()), x
+    if route == 'bitarray-little':
+        # a bitarray with little-endian bit order holds the same sequence of bits; only its byte image differs
+        x = K.bits('x', n)
+        return cls(bitarray.bitarray(x, endian='little')), x
+    if route == 'bitarray-little-window':
+        x = K.bits('x', n + 4)
+        return cls(bitarray=bitarray.bitarray(x, endian='little'), offset=3, length=n), x[3:3 + n]
     if route == 'bitarray-window':
         x = K.bits('x', n + 4)
         return cls(bitarray=x.copy(), offset=3, length=n), x[3:3 + n]
@@ -278,7 +285,7 @@ def conditions(tier):
         conds.append(Cond(cid, fn, bounds, D, params, timeout=T, setup=F.install_fakes))
 
     WHOLE = ('file-whole', 'file-exact-len')
-    routes_q = ['file-len', 'file-whole', 'file-exact-len', 'file-offset-len', 'handle-len', 'bytes-window', 'bitarray-window', 'slice-of-larger']
+    routes_q = ['bitarray-little', 'bitarray-little-window', 'file-len', 'file-whole', 'file-exact-len', 'file-offset-len', 'handle-len', 'bytes-window', 'bitarray-window', 'slice-of-larger']
     for c in (['Bits', 'BitArray'] if q else CLS):
         for route in (routes_q if q else ROUTES):
             for n in (([8] if route in WHOLE else [4]) if q else [0, 5, 8, 11]):
